@@ -452,9 +452,8 @@ func verifLemmaProgress(g *Graph, t *Task) {}
 //@   ensures [choice] ret == activeLog(dir)
 //@   modifies nothing
 //@ func ergoDir
-//@   trusted directory discovery (os.Getwd, os.Stat, filepath); no effect on ghost state
 //@   ensures [true] true
-//@   modifies nothing
+//@   modifies ghost stderrText
 //@ func readEvents
 //@   trusted reads and parses the log file; records the lock epoch in which the read happened
 //@   ensures [epoch] readEpoch == epoch
